@@ -1,7 +1,7 @@
 (* C09 - dot product: sign carried by the angle.  Pinned theorems only. *)
 From Coq Require Import ZArith List Bool Reals Lra.
 From Flocq Require Import Core BinarySingleNaN.
-Require Import GV.FloatBase GV.FloatLemmas GV.AngleM GV.AngleProofs GV.GeonumM GV.GeonumProofs GV.TraitsM.
+Require Import GV.FloatBase GV.FloatLemmas GV.AngleM GV.AngleProofs GV.GeonumM GV.GeonumProofs GV.TraitsM GV.NewProofs GV.CtorProofs GV.ClosureProofs.
 Open Scope R_scope.
 
 (* for EVERY libm: |value| at blade 0 (value >= 0) or blade 2 (value < 0), remainder exactly 0 *)
@@ -25,3 +25,9 @@ Theorem C09_diff_canon : forall a b, canonp (rem (ang a)) -> canonp (rem (ang b)
   canonp (rem (geometric_sub (ang b) (ang a))) /\ (0 <= blade (geometric_sub (ang b) (ang a)))%Z.
 Proof. intros a b Ca Cb. exact (geometric_sub_canon (ang b) (ang a) Cb Ca). Qed.
 Print Assumptions C09_diff_canon.
+
+(* a . a is |a|^2 at angle exactly 0 - under the single libm hypothesis cos(+0.0) = 1.0 *)
+Theorem C09_self : forall (L : libm) a, cos_zero_one L -> fin (rem (ang a)) -> fin (fmul (mag a) (mag a)) ->
+  dot L a a = {| mag := fmul (mag a) (mag a); ang := {| rem := zero; blade := 0 |} |}.
+Proof. exact dot_self. Qed.
+Print Assumptions C09_self.
